@@ -22,6 +22,8 @@ func realMain() {
 		Scenarios int    `json:"scenarios"`
 		Runs      int    `json:"runs"`
 		Timeouts  int    `json:"timeouts"`
+		Compared  int    `json:"scenarios_with_explored_outcome_set"`
+		Conformed int    `json:"runs_whose_outcome_was_explored"`
 		Violation string `json:"violation,omitempty"`
 		Case      string `json:"case,omitempty"`
 	}
@@ -37,7 +39,7 @@ func realMain() {
 			o.Scenarios++
 			n, v := s.RunReal(*runs)
 			o.Runs += n
-			o.Timeouts = e1lib.Timeouts
+			o.Timeouts, o.Compared, o.Conformed = e1lib.Timeouts, e1lib.Compared, e1lib.Conformed
 			if o.Timeouts >= 3 {
 				break // the machine is too busy for this auxiliary pass to be useful
 			}
